@@ -6,7 +6,8 @@
    harness, not expressible here.  Axioms reached: those of the standard library's real numbers (see Print
    Assumptions below): ClassicalDedekindReals.sig_forall_dec, sig_not_dec, FunctionalExtensionality.functional_extensionality_dep. *)
 From Coq Require Import QArith Reals Lra.
-From PsdV Require Import Blend.Num Blend.Model Blend.Spec Blend.ProofsR Blend.ProofsNS Blend.ProofsClip Blend.Refine Blend.RefineNS.
+From PsdV Require Import Blend.Num Blend.Model Blend.Spec Blend.ProofsR Blend.ProofsNS Blend.ProofsClip Blend.ProofsLip Blend.ProofsMono Blend.Refine Blend.RefineNS Blend.Table Blend.ProofsTable.
+From Coq Require Import String List.
 Open Scope R_scope.
 
 (* ================================================================= separable modes: range *)
@@ -95,6 +96,83 @@ Print Assumptions hard_mix_on_threshold_is_refuted.
 Example hard_mix_guard_inhabited : unit (1/4) /\ unit (1/4) /\ (1/4 + 1/4 < 1 \/ 1 + 1/1000000 <= 1/4 + 1/4).
 Proof. unfold unit. lra. Qed.
 
+(* ================================================================= the Photoshop-specific modes, one by one:
+   each with its range theorem and its formula theorem, guards spelled out *)
+Theorem range_linear_dodge_mode : forall cb cs, unit cb -> unit cs -> unit (linear_dodge NR cb cs).
+Proof. intros; apply range_linear_dodge; assumption. Qed.
+Theorem formula_linear_dodge_mode : forall cb cs, linear_dodge NR cb cs = Rmin 1 (cb + cs).
+Proof. exact formula_linear_dodge. Qed.
+Theorem range_linear_burn_mode : forall cb cs, unit cb -> unit cs -> unit (linear_burn NR cb cs).
+Proof. intros; apply range_linear_burn; assumption. Qed.
+Theorem formula_linear_burn_mode : forall cb cs, linear_burn NR cb cs = Rmax 0 (cb + cs - 1).
+Proof. exact formula_linear_burn. Qed.
+Theorem range_vivid_light_mode : forall cb cs, unit cb -> unit cs -> unit (vivid_light NR cb cs).
+Proof. intros; apply range_vivid_light; assumption. Qed.
+(* formula: formula_vivid_light_tol above (guards 0 < cs <= 1/2, 1/2 < cs < 1, cs = 0, cs = 1 cover [0,1]) *)
+Theorem range_linear_light_mode : forall cb cs, unit cb -> unit cs -> unit (linear_light NR cb cs).
+Proof. intros; apply range_linear_light; assumption. Qed.
+(* formula: formula_linear_light_is_clip above (guard: both in [0,1]) *)
+Theorem range_pin_light_mode : forall cb cs, unit cb -> unit cs -> unit (pin_light NR cb cs).
+Proof. intros; apply range_pin_light; assumption. Qed.
+Theorem formula_pin_light_mode : forall cb cs,
+  pin_light NR cb cs = if Rle_dec cs (1/2) then Rmin cb (2 * cs) else Rmax cb (2 * cs - 1).
+Proof. exact formula_pin_light. Qed.
+Theorem range_hard_mix_mode : forall cb cs, unit cb -> unit cs -> unit (hard_mix NR cb cs).
+Proof. intros; apply range_hard_mix; assumption. Qed.
+Theorem hard_mix_is_exactly : forall cb cs,
+  hard_mix NR cb cs = if Rle_dec 1 (cb + 999999/1000000 * cs) then 1 else 0.
+Proof. exact hard_mix_exact_characterisation. Qed.
+(* formula: formula_hard_mix_off_threshold (guard cb + cs < 1 \/ 1 + 1e-6 <= cb + cs) and its refuted complement *)
+Theorem range_difference_mode : forall cb cs, unit cb -> unit cs -> unit (difference NR cb cs).
+Proof. intros; apply range_difference; assumption. Qed.
+Theorem formula_difference_mode : forall cb cs, difference NR cb cs = Rabs (cb - cs).
+Proof. exact formula_difference. Qed.
+Theorem range_exclusion_mode : forall cb cs, unit cb -> unit cs -> unit (exclusion NR cb cs).
+Proof. intros; apply range_exclusion; assumption. Qed.
+Theorem formula_exclusion_mode : forall cb cs, exclusion NR cb cs = cb + cs - 2 * cb * cs.
+Proof. exact formula_exclusion. Qed.
+Theorem range_subtract_mode : forall cb cs, unit cb -> unit cs -> unit (subtract NR cb cs).
+Proof. intros; apply range_subtract; assumption. Qed.
+Theorem formula_subtract_mode : forall cb cs, subtract NR cb cs = Rmax 0 (cb - cs).
+Proof. exact formula_subtract. Qed.
+Theorem range_divide_mode : forall cb cs, unit cb -> unit cs -> unit (divide NR cb cs).
+Proof. intros; apply range_divide; assumption. Qed.
+(* formula: formula_divide_tol above (guard 0 < cs); at the singular point cs = 0 the code is: *)
+Theorem divide_black_source : forall cb, divide NR cb 0 = Rmin 1 (cb * 1000000000).
+Proof. exact divide_at_0. Qed.
+Print Assumptions divide_black_source.
+Print Assumptions hard_mix_is_exactly.
+
+(* ================================================================= monotonicity on [0,1]
+   mono_b f: b <= b' -> f b s <= f b' s;  mono_s / anti_s: the same in the source, increasing / decreasing *)
+Theorem monotone_in_the_backdrop :
+  mono_b (normal NR) /\ mono_b (multiply NR) /\ mono_b (screen NR) /\ mono_b (overlay NR) /\ mono_b (darken NR) /\
+  mono_b (lighten NR) /\ mono_b (color_dodge NR) /\ mono_b (color_burn NR) /\ mono_b (linear_dodge NR) /\
+  mono_b (linear_burn NR) /\ mono_b (hard_light NR) /\ mono_b (soft_light NR) /\ mono_b (vivid_light NR) /\
+  mono_b (linear_light NR) /\ mono_b (pin_light NR) /\ mono_b (hard_mix NR) /\ mono_b (divide NR) /\
+  mono_b (subtract NR).
+Proof.
+  repeat split; auto using mono_b_normal, mono_b_multiply, mono_b_screen, mono_b_overlay, mono_b_darken, mono_b_lighten,
+    mono_b_color_dodge, mono_b_color_burn, mono_b_linear_dodge, mono_b_linear_burn, mono_b_hard_light, mono_b_soft_light,
+    mono_b_vivid_light, mono_b_linear_light, mono_b_pin_light, mono_b_hard_mix, mono_b_divide, mono_b_subtract.
+Qed.
+Print Assumptions monotone_in_the_backdrop.
+Theorem monotone_in_the_source :
+  mono_s (normal NR) /\ mono_s (multiply NR) /\ mono_s (screen NR) /\ mono_s (overlay NR) /\ mono_s (darken NR) /\
+  mono_s (lighten NR) /\ mono_s (color_dodge NR) /\ mono_s (color_burn NR) /\ mono_s (linear_dodge NR) /\
+  mono_s (linear_burn NR) /\ mono_s (hard_light NR) /\ mono_s (soft_light NR) /\ mono_s (linear_light NR) /\
+  mono_s (pin_light NR) /\ mono_s (hard_mix NR) /\ anti_s (divide NR) /\ anti_s (subtract NR).
+Proof.
+  repeat split; auto using mono_s_normal, mono_s_multiply, mono_s_screen, mono_s_overlay, mono_s_darken, mono_s_lighten,
+    mono_s_color_dodge, mono_s_color_burn, mono_s_linear_dodge, mono_s_linear_burn, mono_s_hard_light, mono_s_soft_light,
+    mono_s_linear_light, mono_s_pin_light, mono_s_hard_mix, anti_s_divide, anti_s_subtract.
+Qed.
+Print Assumptions monotone_in_the_source.
+(* vivid light is monotone in the source on each side of 1/2 but drops by about 1e-9 across the seam
+   (color_burn(b,1) = (b+e)/(1+e) > color_dodge(b,0) = b/(1+e)); difference and exclusion are not monotone: *)
+Theorem difference_exclusion_not_monotone : ~ mono_b (difference NR) /\ ~ mono_b (exclusion NR).
+Proof. exact difference_not_monotone. Qed.
+
 (* ================================================================= documented identities *)
 Theorem identities : forall b s x : R,
   normal NR b s = s /\ multiply NR b 1 = b /\ screen NR b 0 = b /\ darken NR x x = x /\ lighten NR x x = x /\
@@ -175,10 +253,42 @@ Proof. exact formula_luminosity. Qed.
 Print Assumptions formula_luminosity_everywhere.
 Example unit3_inhabited : unit3 (1/4, 1/2, 3/4) /\ 0 <= lum NR (-1/10, 1/2, 11/10) <= 1.
 Proof. munfold. unfold unit3, unit. lra. Qed.
-(* hue / saturation: formula_*_partial -- proved parts are set_sat_matches_pdf (the SetSat stage) and
-   clip_color_matches_pdf / set_lum (the SetLum stage, for the same argument); missing is the Lipschitz continuity
-   of PDF SetLum that would compose the two bounds.  Their closeness to the PDF formula on the generated inputs is
-   checked by the harness oracle (tolerance 2e-5 + 1e-7/(Cmax-Cmin)). *)
+(* hue and saturation on the whole cube.  PDF SetLum (ClipColor after the luminosity shift) is Lipschitz in its
+   colour argument for the sup norm with constant 2 * KL, KL = 1 + 200/11 (so 2 KL < 38.4); composing the SetSat
+   stage bound (s * 1e-9 / (Cmax - Cmin)) through it and adding the SetLum stage bound (2e-8) gives: *)
+Theorem pdf_set_lum_is_lipschitz : forall (c c' : rgb NR) (l h : R), unit l -> dist3 c c' h ->
+  dist3 (s_set_lum c l) (s_set_lum c' l) (KL * (2 * h)).
+Proof. exact s_set_lum_lip. Qed.
+Print Assumptions pdf_set_lum_is_lipschitz.
+Theorem formula_hue_everywhere : forall cb cs : rgb NR, unit3 cb -> unit3 cs ->
+  close3 (s_sat cs) (60 * e9) (hue_rgb NR cb cs) (s_hue cb cs).
+Proof. exact formula_hue_weighted. Qed.
+Print Assumptions formula_hue_everywhere.
+Theorem formula_saturation_everywhere : forall cb cs : rgb NR, unit3 cb -> unit3 cs ->
+  close3 (s_sat cb) (60 * e9) (saturation_rgb NR cb cs) (s_saturation cb cs).
+Proof. exact formula_saturation_weighted. Qed.
+Print Assumptions formula_saturation_everywhere.
+(* the same unweighted: |code - PDF| <= 2e-8 + 2 KL * Sat(other) * 1e-9 / (Cmax - Cmin), channel by channel;
+   and 2e-8 when the colour whose hue is kept is grey (weight 0 above) *)
+Theorem formula_hue_explicit : forall cb cs : rgb NR, unit3 cb -> unit3 cs -> s_min3 cs < s_max3 cs ->
+  dist3 (hue_rgb NR cb cs) (s_hue cb cs) (20 * e9 + KL * (2 * (s_sat cb * e9 / (s_max3 cs - s_min3 cs)))).
+Proof. exact formula_hue. Qed.
+Theorem formula_saturation_explicit : forall cb cs : rgb NR, unit3 cb -> unit3 cs -> s_min3 cb < s_max3 cb ->
+  dist3 (saturation_rgb NR cb cs) (s_saturation cb cs)
+        (20 * e9 + KL * (2 * (s_sat cs * e9 / (s_max3 cb - s_min3 cb)))).
+Proof. exact formula_saturation. Qed.
+Theorem formula_hue_grey_source_everywhere : forall (cb : rgb NR) (r : R), unit3 cb ->
+  dist3 (hue_rgb NR cb (r, r, r)) (s_hue cb (r, r, r)) (20 * e9).
+Proof. exact formula_hue_grey_source. Qed.
+Theorem formula_saturation_grey_backdrop_everywhere : forall (r : R) (cs : rgb NR), unit r ->
+  dist3 (saturation_rgb NR (r, r, r) cs) (s_saturation (r, r, r) cs) (20 * e9).
+Proof. exact formula_saturation_grey_backdrop. Qed.
+Print Assumptions formula_hue_explicit.
+Print Assumptions formula_saturation_explicit.
+Print Assumptions formula_hue_grey_source_everywhere.
+Print Assumptions formula_saturation_grey_backdrop_everywhere.
+Example hue_hypotheses_inhabited : unit3 (1/4, 1/2, 3/4) /\ s_min3 (1/4, 1/2, 3/4) < s_max3 (1/4, 1/2, 3/4).
+Proof. unfold unit3, unit, s_min3, s_max3, Rmin, Rmax. repeat scase1; lra. Qed.
 
 (* ================================================================= CMYK wrapper *)
 Theorem cmyk_K_is_always_the_source_K : forall (m : nonsep_mode) (cb cs : cmyk NR),
@@ -208,6 +318,20 @@ Theorem range_cmyk_guarded : forall (f : rgb NR -> rgb NR -> rgb NR) (cb cs : cm
   le3 (f (cmyk2rgb NR cb) (cmyk2rgb NR cs)) (1 - snd cs) -> unit4 (wrap_cmyk NR f cb cs).
 Proof. exact wrap_cmyk_range. Qed.
 Print Assumptions range_cmyk_guarded.
+(* F-C12-1 exactly, for all six modes: in range IFF the source black is 1 or no blended RGB channel exceeds
+   1 - K of the source.  (<-) is the positive range theorem on the complement of the finding's class. *)
+Theorem range_cmyk_exactly : forall (m : nonsep_mode) (cb cs : cmyk NR), unit4 cb -> unit4 cs ->
+  (unit4 (blend_cmyk NR m cb cs) <->
+   (snd cs = 1 \/ le3 (blend_rgb NR m (cmyk2rgb NR cb) (cmyk2rgb NR cs)) (1 - snd cs))).
+Proof. exact range_cmyk_iff. Qed.
+Print Assumptions range_cmyk_exactly.
+Theorem range_cmyk_darker_lighter_source_K_below_backdrop_K : forall (m : nonsep_mode) (cb cs : cmyk NR),
+  m = DarkerColor \/ m = LighterColor -> unit4 cb -> unit4 cs -> snd cs <= snd cb -> unit4 (blend_cmyk NR m cb cs).
+Proof. exact range_cmyk_darker_lighter. Qed.
+Print Assumptions range_cmyk_darker_lighter_source_K_below_backdrop_K.
+Example range_cmyk_darker_lighter_hypotheses_inhabited :
+  unit4 (1/4, 1/2, 3/4, 1/2) /\ unit4 (1/2, 1/4, 1, 1/4) /\ snd (1/2, 1/4, 1, 1/4) <= snd (1/4, 1/2, 3/4, 1/2).
+Proof. unfold unit4, unit. cbn [snd]. repeat split; lra. Qed.
 Theorem range_cmyk_source_K0 : forall (m : nonsep_mode) (cb cs : cmyk NR),
   unit4 cb -> unit4 cs -> snd cs = 0 -> unit4 (blend_cmyk NR m cb cs).
 Proof. exact range_cmyk_K0. Qed.
@@ -215,6 +339,33 @@ Print Assumptions range_cmyk_source_K0.
 Example range_cmyk_source_K0_hypotheses_inhabited :
   unit4 (1/4, 1/2, 3/4, 1/2) /\ unit4 (1/2, 1/4, 1, 0) /\ snd (1/2, 1/4, 1, 0) = 0.
 Proof. unfold unit4, unit. cbn [snd]. repeat split; lra. Qed.
+
+(* ================================================================= the BLEND_FUNC table
+   Blend/Table.v holds the table as data (key string -> model function).  On every run the harness dumps the live
+   dict as (key, function.__name__) pairs into build/C12/gen/BlendTable.v and proves there
+       check_live live_table = true            (same key set, no duplicates, same function name per key)
+   and instantiates checked_live_table_is_sound with it; a swapped / missing / extra entry breaks that obligation,
+   and the oracle (vh.c12.table_check) reports the offending key as a concrete failure. *)
+Theorem every_table_entry_is_a_proved_mode : forall (k : string) (f : fname),
+  In (k, f) blend_table -> entry_proved f.
+Proof. exact table_entries_proved. Qed.
+Print Assumptions every_table_entry_is_a_proved_mode.
+Theorem table_has_54_unique_keys_and_two_per_function :
+  (length blend_table = 54%nat /\ nodup_keys table_names = true) /\ forall f, count_f f = 2%nat.
+Proof. split; [exact table_shape | exact table_covers_every_mode]. Qed.
+Print Assumptions table_has_54_unique_keys_and_two_per_function.
+Theorem function_name_determines_the_model_function : forall f g : fname, fname_str f = fname_str g -> f = g.
+Proof. exact fname_str_injective. Qed.
+Theorem checked_live_table_is_sound : forall live, check_live live = true ->
+  forall k n, In (k, n) live ->
+  exists f, In (k, f) blend_table /\ fname_str f = n /\ entry_proved f /\ (forall g, fname_str g = n -> g = f).
+Proof. exact live_table_sound. Qed.
+Print Assumptions checked_live_table_is_sound.
+Example check_live_accepts_the_model_table : check_live table_names = true.
+Proof. vm_compute. reflexivity. Qed.
+Example check_live_rejects_a_swapped_entry :
+  check_live (("BlendMode.NORMAL", "multiply") :: tl table_names)%string = false.
+Proof. vm_compute. reflexivity. Qed.
 
 (* ================================================================= the executable instance refines the real one *)
 Theorem exec_refines_real_separable : forall (m : sep_mode) (cb cs : Q), m <> SoftLight -> (0 <= cs <= 1)%Q ->
